@@ -176,3 +176,97 @@ def one_formatter(ctx, prog):
                 why += "; writes %s" % txt[:160]
         ctx.ob(R, "Display::fmt: text = buffer[..store_into_bytes(buffer).unwrap()], buffer of crate::MAX_LEN_IN_STR bytes", ok, why, f.loc())
     ctx.floor(R, n, 1, "formatter front ends")
+
+
+def layout(ctx, prog):
+    """store_into_bytes writes `<block size>:<bh1>:<bh2>` at consecutive offsets: forward value numbering of the write
+    cursor gives each store / hand-off position as a linear form in len(bs_str), len_blockhash1"""
+    from ..vn import Forward
+    from ..sym import lin, fpath
+    f = prog.fn("FuzzyHashData::<S1, S2, NORM>::store_into_bytes")
+    ctx.visit(f)
+    try:
+        fw = Forward(f)
+    except ValueError as e:
+        return ctx.ob("SA-FORMULA", "store_into_bytes: layout of the text", False, "body is not loop-free: %s" % e, f.loc())
+    colons = []
+    inserts = []
+    copies = []
+    for ev in fw.events:
+        if ev[1] == "store":
+            pe, v = ev[2], ev[3]
+            if pe[0] == "index" and strip(v)[0] == "const" and strip(v)[1] == 58:
+                r, names = fpath(pe[1])
+                if r[0] == "param" and r[1] == 2:
+                    colons.append(lin(pe[2]))
+        elif ev[1] == "call":
+            c, args = ev[2], ev[3]
+            if c.endswith("algorithms::insert_block_hash_into_bytes"):
+                dst = strip(args[0])
+                start = None
+                if dst[0] == "call" and dst[1].split("::")[-1] == "index_mut":
+                    rg = strip(dst[2][1])
+                    if rg[0] == "agg" and rg[1].endswith("RangeFrom::RangeFrom"):
+                        start = lin(rg[2][0])
+                ln = strip(args[2])
+                lname = (ln[1].split(".")[-1],) if ln[0] == "init" else fpath(args[2])[1][-1:]
+                inserts.append((start, fpath(args[1])[1][-1:], lname))
+            elif c.endswith("copy_from_slice"):
+                dst = strip(args[0])
+                if dst[0] == "call" and dst[1].split("::")[-1] == "index_mut":
+                    rg = strip(dst[2][1])
+                    if rg[0] == "agg" and rg[1].endswith("RangeTo::RangeTo"):
+                        copies.append(lin(rg[2][0]))
+
+    def norm(l):
+        if l is None:
+            return None
+        d, c = l
+        out = {}
+        for k, v in d.items():
+            if "BLOCK_SIZES_STR" in k and "len(" in k:
+                out["L0"] = out.get("L0", 0) + v
+            elif k.endswith("len_blockhash1"):
+                out["len1"] = out.get("len1", 0) + v
+            elif k.endswith("len_blockhash2"):
+                out["len2"] = out.get("len2", 0) + v
+            else:
+                out[k[-40:]] = v
+        return (tuple(sorted(out.items())), c)
+    L0 = (("L0", 1),)
+    want_colons = [(L0, 0), (tuple(sorted({"L0": 1, "len1": 1}.items())), 1)]
+    want_ins = [((L0, 1), ("blockhash1",), ("len_blockhash1",)), ((tuple(sorted({"L0": 1, "len1": 1}.items())), 2), ("blockhash2",), ("len_blockhash2",))]
+    got_colons = [norm(x) for x in colons]
+    got_ins = [(norm(a), b, c) for a, b, c in inserts]
+    got_copy = [norm(x) for x in copies]
+    ok = got_colons == want_colons and got_ins == want_ins and got_copy == [(L0, 0)]
+    ctx.ob("SA-FORMULA", "store_into_bytes lays out block size at [0,L0), ':' at L0, block hash 1 at L0+1, ':' at L0+1+len1, block hash 2 at L0+2+len1 (L0 = length of the block size text)", ok,
+           "colons at %s; block hashes at %s; block size text up to %s" % (got_colons, got_ins, got_copy), f.loc())
+    # the per-symbol writer: buf[i] = BASE64_TABLE_U8[hash[i]] with i the enumerate index over hash[0..len]
+    g = prog.fn("algorithms::insert_block_hash_into_bytes")
+    ctx.visit(g)
+    sy = Sym(g)
+    ok = False
+    why = ""
+    for i, j, s in g.stmts():
+        if s["s"] == "assign" and s["lhs"]["l"] == 1 and any(isinstance(x, dict) and "ix" in x for x in s["lhs"]["p"]):
+            ix = [x for x in s["lhs"]["p"] if isinstance(x, dict) and "ix" in x][0]["ix"]
+            ie = sy.local(ix)
+            v = strip(sy.rvalue(s["rv"]))
+            r1, n1 = fpath(ie)
+            ok = r1[0] == "call" and r1[1].endswith("::next") and n1 == ("<Some>", "0", "0") and v[0] == "index" and fpath(v[2])[0] == r1 and fpath(v[2])[1] == ("<Some>", "0", "1")
+            why = "buf[%s] = %s" % (show(ie)[:60], show(v)[:100])
+    # iterator source: hash[0..len] enumerate
+    from .fold import loop_over
+    lo = loop_over(g, sy)
+    src_ok = False
+    if len(lo) == 1:
+        src = lo[0][1]
+        while src[0] == "call" and src[2] and src[1].split("::")[-1] in ("enumerate",):
+            src = strip(src[2][0])
+            from .fold import iter_source
+            src = iter_source(src)
+        if src[0] == "call" and src[1].split("::")[-1] == "index":
+            rg = strip(src[2][1])
+            src_ok = is_param(src[2][0], "hash") and rg[0] == "agg" and rg[1].endswith("Range::Range") and const_value(rg[2][0]) == 0 and is_param(strip(rg[2][1]), "len")
+    ctx.ob("SA-FORMULA", "insert_block_hash_into_bytes writes buf[i] = BASE64_TABLE_U8[hash[i]] for i over hash[0..len]", ok and src_ok, "%s; iterates hash[0..len]: %s" % (why, src_ok), g.loc())
